@@ -72,6 +72,10 @@ class Ctx:
         """fail closed: an anchor or a hand-confirmed instance count disappeared"""
         return self._add('VIOLATION', rule, None, 'anchor-lost: ' + what, detail='anchor-lost: ' + what)
 
+    def candidate(self, rule, fn, reason, line=None, detail=None):
+        """a rule instance that fires but has not been reproduced against the real code: reported, never a verdict"""
+        return self._add('CANDIDATE', rule, fn, reason, line, detail=detail)
+
     def absent(self, rule, what):
         """the anchor is compiled out in this configuration (not a pass, not a failure)"""
         return self._add('ABSENT', rule, None, what)
@@ -136,7 +140,7 @@ def finish(ctx, level_text=''):
     for i, k in enumerate(known):
         if i not in used and k['key'].get('config', 'default') in ctx._facts:
             print('NOTE property=%s listed finding no longer reported: %s' % (ctx.prop, json.dumps(k['key'])))
-    obligations = [i for i in ctx.instances if i['verdict'] != 'ABSENT']
+    obligations = [i for i in ctx.instances if i['verdict'] not in ('ABSENT', 'CANDIDATE')]
     discharged = [i for i in obligations if i['verdict'] == 'PASS']
     distinct = {(i['rule'], i['fn'], i['key']['detail'], i.get('config', ''), i['reason']) for i in obligations
                 if not i['reason'].startswith('anchor-lost')}
@@ -169,6 +173,7 @@ def finish(ctx, level_text=''):
         facts=ctx.facts_info,
         floors=ctx.floors,
         known_findings=[i['key'] for i in ctx.instances if i['verdict'] == 'KNOWN-FINDING'],
+        untriaged_candidates=[dict(rule=i['rule'], fn=i['fn'], config=i.get('config', 'default'), why=i['reason']) for i in ctx.instances if i['verdict'] == 'CANDIDATE'],
         absent=[dict(rule=i['rule'], config=i.get('config', 'default'), why=i['reason']) for i in ctx.instances if i['verdict'] == 'ABSENT'],
         checker_cmd='./check %s --tier %s' % (ctx.prop, ctx.tier),
         trusted_base=['rustc nightly front end / MIR construction / instance resolution',
